@@ -22,6 +22,12 @@ import (
 )
 
 func extractKeysWeightsAggregateWithScores(cmd []string) ([]string, []int, string, bool, error) {
+	// The callers of ZINTERSTORE/ZUNIONSTORE remove every token equal to the destination before
+	// calling this function, which can leave fewer tokens than the key function validated.
+	if len(cmd) < 2 {
+		return []string{}, []int{}, "", false, errors.New("wrong number of arguments")
+	}
+
 	var weights []int
 	weightsIndex := slices.IndexFunc(cmd, func(s string) bool {
 		return strings.EqualFold(s, "weights")
